@@ -371,12 +371,31 @@ fn ref_aggregate(a: &AggK, rows: &[&Vec<Value>]) -> Value {
         }
         AggK::Stddev(_, var) => {
             if nn.is_empty() { return Value::Null; }
-            // population variance from Σx, Σx², n (formula as in the code; the inputs are exactly representable)
-            let xs: Vec<f64> = nn.iter().map(|v| match v { Value::Int(x) => *x as f64, Value::Float(x) => x.0, _ => 0.0 }).collect();
-            let n = xs.len() as f64;
-            let s: f64 = xs.iter().sum();
-            let q: f64 = xs.iter().map(|x| x * x).sum();
-            let variance = (q - (s * s) / n) / n;
+            // POPULATION variance (divisor n; the sentence and the README do not say population or sample: the code's
+            // choice), computed here over EXACT rationals — not by the code's one-pass REAL formula: the generated INT values
+            // are integers and the REAL values multiples of 1/4, so with m = 4·x: Var(x) = (n·Σm² − (Σm)²) / (16·n²), one
+            // correctly rounded division. The implementation's REAL may differ from it by rounding (see `cells_match`).
+            let ms: Option<Vec<i128>> = nn.iter().map(|v| match v {
+                Value::Int(x) => Some(*x as i128 * 4),
+                Value::Float(x) if (x.0 * 4.0).fract() == 0.0 && x.0.abs() < 1e12 => Some((x.0 * 4.0) as i128),
+                _ => None,
+            }).collect();
+            let variance = match ms {
+                Some(ms) => {
+                    let n = ms.len() as i128;
+                    let s: i128 = ms.iter().sum();
+                    let q: i128 = ms.iter().map(|m| m * m).sum();
+                    (n * q - s * s) as f64 / (16 * n * n) as f64
+                }
+                None => {
+                    // values outside the exactly representable pool (not generated): the one-pass formula
+                    let xs: Vec<f64> = nn.iter().map(|v| match v { Value::Int(x) => *x as f64, Value::Float(x) => x.0, _ => 0.0 }).collect();
+                    let n = xs.len() as f64;
+                    let s: f64 = xs.iter().sum();
+                    let q: f64 = xs.iter().map(|x| x * x).sum();
+                    (q - (s * s) / n) / n
+                }
+            };
             Value::Float(Float(if *var { variance } else { variance.sqrt() }))
         }
         AggK::Min(_) => nn.iter().fold(Value::Null, |cur, v| if cur == Value::Null || cmp_val(v, &cur) == Ordering::Less { v.clone() } else { cur }),
@@ -412,6 +431,21 @@ fn apply_wrap(v: Value, wrap: &Option<(&'static str, i64, u8)>) -> Value {
 
 /// `run_engine_batch`'s rendering of `ExecutionError::CannotCreateArrayOfNullType` (src/execution/mod.rs), the answer D15 predicts
 const D15_ERROR: &str = "exec: Cannot create array of null type";
+
+/// cell comparison of the implementation's table with the reference: identical, except that two REALs may differ by
+/// rounding (relative 1e-12; the reference computes STDDEV / VARIANCE over exact rationals, the code in REAL arithmetic)
+fn cells_match(a: &Value, b: &Value) -> bool {
+    match (a, b) {
+        (Value::Float(x), Value::Float(y)) => {
+            let (x, y) = (x.0, y.0);
+            x == y || (x.is_nan() && y.is_nan()) || (x - y).abs() <= 1e-12 * x.abs().max(y.abs()).max(1e-300)
+        }
+        _ => a == b,
+    }
+}
+fn tables_match(a: &[Vec<Value>], b: &[Vec<Value>]) -> bool {
+    a.len() == b.len() && a.iter().zip(b.iter()).all(|(r, t)| r.len() == t.len() && r.iter().zip(t.iter()).all(|(x, y)| cells_match(x, y)))
+}
 
 struct RefOut {
     /// the statement takes STDDEV / VARIANCE of intervals: the sentence does not say what that is (the code reports an
@@ -560,11 +594,11 @@ pub fn run(p: &Params) -> Run {
         let (outcome, nrows) = match &got {
             _ if expected.undecided => ("undecided", 0),
             RowsOutcome::Rows { rows, .. } => {
-                if *rows != expected.rows {
+                if !tables_match(rows, &expected.rows) {
                     // known finding D10 only if the table is EXACTLY the predicted one: the reference table without the
                     // groups in which no aggregate creates an entry (and no ARRAY_AGG starts with NULL: D15 predicts an
                     // error, so a table is then not what any finding predicts)
-                    let class = if expected.d10 && !expected.d15 && *rows == expected.rows_d10 { "D10:group-without-value-entry" } else { "aggregate-table-differs-from-reference" };
+                    let class = if expected.d10 && !expected.d15 && tables_match(rows, &expected.rows_d10) { "D10:group-without-value-entry" } else { "aggregate-table-differs-from-reference" };
                     let note = if expected.d15 { " (finding D15 predicts the error `Cannot create array of null type` here)".to_owned() } else if expected.d10 { format!(" (finding D10 predicts {:?})", expected.rows_d10) } else { String::new() };
                     run.fail(desc.clone(), class, format!("implementation table {:?} but the rows of each group give {:?}{}", rows, expected.rows, note));
                 }
